@@ -432,7 +432,7 @@ func runC07(c *core.Ctx) {
 		c.Undecided("C07.alloc", "type/basic.ReadN", token.NoPos, "anchor not found")
 		return
 	}
-	c.Doc("C07.alloc", "no allocation size from an unchecked wire integer", 20)
+	c.Doc("C07.alloc", "no allocation size from an unchecked wire integer", 8)
 	c.Doc("C07.loop", "no loop bounded by an unchecked wire integer unless every iteration consumes input", 15)
 	nSinks, nLoops := wireIntegerSinks(c, d, "C07.alloc", "C07.loop", false)
 	c.Note("wire-integer sinks examined: %d allocations, %d loops", nSinks, nLoops)
